@@ -784,8 +784,8 @@ impl<'a> Gen<'a> {
         if k >= 24 {
             let gated = match k {
                 39 => self.cfg.f_proxy,
-                46 | 78 => self.cfg.f_symbol,
-                61 | 62 => self.cfg.f_gen,
+                46 | 78 | 92 | 93 => self.cfg.f_symbol,
+                61 | 62 | 87 | 88 | 89 => self.cfg.f_gen,
                 63 => self.cfg.f_class,
                 _ => true,
             };
@@ -1920,6 +1920,41 @@ pub const MATRIX_EXT: &[&str] = &[
     /* 77 */ r#"Object.values(Object.fromEntries([...new Map(@A.map((o: any, i: number) => ["k" + i, { v: o.v }]))]))"#,
     /* 78 */ r#"((t: any[]) => { const it: any = t[Symbol.iterator](); const first: any = it.next().value; t.length = 0; const j: any[] = [{}, {}]; return [first ?? { v: -1 }, { v: j.length }]; })(@A)"#,
     /* 79 */ r#"[{ v: [{}, {}].length }, { v: String({ toString() { return "ab" + [{}].length; } }).length }]"#,
+    // catalogue 3: grouping with fresh keys, several handlers on one promise, combinators over
+    // thenables, constructors fed by generators, toJSON / toPrimitive / isConcatSpreadable hooks
+    /* 80 */ r#"[...Map.groupBy(@A, (o: any) => ({ k: (Number(o.v) || 0) % 2 })).entries()].map((e: any) => ({ v: e[1].length, k: e[0].k }))"#,
+    /* 81 */ r#"[...Map.groupBy(@A.map((o: any) => ({ v: o.v })), (o: any) => [o.v, { w: o.v }]).keys()].map((k: any) => ({ v: k[0], w: k[1].w }))"#,
+    /* 82 */ r#"(() => { let r: any; const p: any = new Promise((res: any) => { r = res; }); const out: any[] = []; p.then((x: any) => { out.push({ v: [{}, {}, {}].length }); }); p.then((x: any) => ({ v: x.v, l: [{}] })).then((y: any) => { out.push(y); }); p.then((x: any) => { out.push({ v: x.v, third: [x] }); }); r({ v: @N, o: {} }); return out; })()"#,
+    /* 83 */ r#"(() => { let rj: any; const p: any = new Promise((_: any, rej: any) => { rj = rej; }); const out: any[] = []; p.catch((e: any) => { out.push({ v: [{}, {}].length }); }); p.then(null, (e: any) => ({ v: e.v, l: [{}] })).then((y: any) => { out.push(y); }); p.catch((e: any) => { out.push({ v: e.v, again: [e] }); }); rj({ v: @N, o: {} }); return out; })()"#,
+    /* 84 */ r#"(() => { const rs: any[] = []; const ps: any[] = @A.map((o: any) => new Promise((res: any) => { rs.push(() => res({ v: o.v, l: [{}] })); })); const out: any[] = []; Promise.all(ps).then((all: any[]) => { for (const x of all) out.push(x); }); rs.reverse().forEach((f: any) => { f(); [{}, {}]; }); return out; })()"#,
+    /* 85 */ r#"(() => { const out: any[] = []; Promise.all(@A.map((o: any) => ({ then(ok: any) { ok({ v: o.v, t: [{}] }); } }))).then((all: any[]) => { for (const x of all) out.push(x); }); return out; })()"#,
+    /* 86 */ r#"(() => { const out: any[] = []; Promise.race(@A.map((o: any) => Promise.resolve({ v: o.v, l: [{}] }))).then((w: any) => { out.push(w); }); Promise.allSettled(@A.map((o: any, i: number) => i % 2 ? Promise.reject({ v: o.v }) : Promise.resolve({ v: o.v }))).then((all: any[]) => { for (const x of all) out.push({ v: (x.value ?? x.reason).v, s: x.status }); }); return out; })()"#,
+    /* 87 */ r#"[...new Map((function* (): any { for (const o of @A) { yield [{ id: o.v }, { v: o.v, l: [{}] }]; } })()).entries()].map((e: any) => ({ v: e[1].v, id: e[0].id }))"#,
+    /* 88 */ r#"[...new Set((function* (): any { for (const o of @A) { yield { v: o.v, l: [{}] }; } })())]"#,
+    /* 89 */ r#"Object.values(Object.fromEntries((function* (): any { let i = 0; for (const o of @A) { yield ["k" + (i++), { v: o.v, l: [{}] }]; } })()))"#,
+    /* 90 */ r#"JSON.parse(JSON.stringify(@A.map((o: any) => ({ toJSON() { return { v: o.v, l: [{}, { m: [o.v] }] }; } }))))"#,
+    /* 91 */ r#"[{ v: 0, r: JSON.stringify({ a: @A, get g(): any { return [{ v: @N }, [{}]]; }, t: { toJSON(k: string) { return [{ k: k }, { v: 1 }]; } } }, null, 2).length }]"#,
+    /* 92 */ r#"@A.map((o: any) => ({ [Symbol.toPrimitive](hint: string) { return [{}, hint].length + (Number(o.v) || 0); } })).map((o: any) => ({ v: +o, s: `${o}`, d: o + "" }))"#,
+    /* 93 */ r#"[{ v: 0 }].concat({ length: 2, 0: { v: @N }, 1: { v: 1 }, get [Symbol.isConcatSpreadable]() { [{}, {}]; return true; } } as any, @A)"#,
+    /* 94 */ r#"((t: any[]) => { const seen: any[] = []; t.every((o: any) => { seen.push({ v: o.v, c: [o] }); return seen.length < 3; }); t.some((o: any) => { seen.push({ v: o.v }); return seen.length > 4; }); const i: number = t.findIndex((o: any) => [{}, o.v].length > 5); const j: number = t.findLastIndex((o: any) => [{}].length > 5); return seen.concat([{ v: i + j }]); })(@A)"#,
+    /* 95 */ r#"Object.values(Object.defineProperties({}, Object.fromEntries(@A.map((o: any, i: number) => ["p" + i, { get: () => ({ v: o.v, l: [{}] }), enumerable: true }]))))"#,
+    /* 96 */ r#"Reflect.ownKeys(Object.fromEntries(@A.map((o: any, i: number) => ["k" + i, o]))).map((k: any) => ({ v: String(k).length, k: k }))"#,
+    /* 97 */ r#"((s: string) => s.split(/(?:)/u, 3).concat(s.split("", 2)).map((c: string) => ({ v: c.length, c: c, l: [{}] })))(@S)"#,
+    /* 98 */ r#"((o: any) => { const out: any[] = []; for (const k in o) { out.push({ v: o[k].v, k: k }); if (out.length === 1) { o.added = { v: @N }; delete o.k1; } } return out; })(Object.fromEntries(@A.map((x: any, i: number) => ["k" + i, x])))"#,
+    /* 99 */ r#"((m: any) => [...structuredClone(m).entries()].map((e: any) => ({ v: e[1].v, k: e[0] })))(new Map(@A.map((o: any, i: number) => ["k" + i, { v: o.v, s: new Set([o.v]) }])))"#,
+    /* 100 */ r#"((a: any[]) => { const out: any[] = []; a.forEach((o: any, i: number) => { if (i === 0) { a.length = 1; [{}, {}, {}]; } out.push({ v: o.v }); }); return out.concat(a); })(@A.concat([{ v: 1 }, { v: 2 }]))"#,
+    /* 101 */ r#"((a: any[]) => a.map((o: any, i: number) => { if (i === 0) { a.pop(); a.pop(); [{}, {}]; } return { v: o ? o.v : -1 }; }))(@A.concat([{ v: 1 }, { v: 2 }]))"#,
+    /* 102 */ r#"((a: any[]) => a.filter((o: any, i: number) => { if (i === 0) { a[1] = { v: @N }; a.splice(2, 1); [{}, {}]; } return true; }))(@A.concat([{ v: 1 }, { v: 2 }, { v: 3 }]))"#,
+    /* 103 */ r#"((a: any[]) => [a.reduce((p: any, c: any, i: number) => { if (i === 1) { a.length = 0; [{}, {}]; } return { v: (Number(p.v) || 0) + (Number(c.v) || 0), p: p }; })])(@A.concat([{ v: 1 }, { v: 2 }]))"#,
+    /* 104 */ r#"((a: any[]) => { const out: any[] = []; for (const [i, o] of a.entries()) { if (i === 0) { a.shift(); [{}, {}]; } out.push({ v: o ? o.v : -1, i: i }); } return out; })(@A.concat([{ v: 1 }, { v: 2 }]))"#,
+    /* 105 */ r#"((a: any[]) => { const it: any = a.values(); const first: any = it.next().value; a.splice(0, a.length, { v: @N }); [{}, {}, {}]; return [first, it.next().value ?? { v: -1 }]; })(@A.concat([{ v: 1 }]))"#,
+    /* 106 */ r#"((a: any[]) => a.toSorted((x: any, y: any) => { a.length = 0; [{}, {}]; return (Number(y.v) || 0) - (Number(x.v) || 0); }))(@A.concat([{ v: 1 }, { v: 2 }]))"#,
+    /* 107 */ r#"((a: any[]) => a.flatMap((o: any, i: number) => { if (i === 0) { a.length = 1; } return [{ v: o.v }, [{ v: i }]]; }).flat())(@A.concat([{ v: 1 }]))"#,
+    /* 108 */ r#"((o: any) => Object.entries(o).map(([k, x]: any, i: number) => { if (i === 0) { delete o.k1; delete o.k2; [{}, {}]; } return { v: x.v, k: k }; }))(Object.fromEntries(@A.concat([{ v: 1 }, { v: 2 }]).map((x: any, i: number) => ["k" + i, x])))"#,
+    /* 109 */ r#"((m: any) => { const out: any[] = []; m.forEach((x: any, k: any) => { if (out.length === 0) { m.clear(); [{}, {}, {}]; } out.push({ v: x.v, k: k.id }); }); return out; })(new Map(@A.map((o: any) => [{ id: o.v }, o])))"#,
+    /* 110 */ r#"((st: any) => { const out: any[] = []; st.forEach((x: any) => { if (out.length === 0) { st.clear(); [{}, {}, {}]; } out.push({ v: x.v }); }); return out; })(new Set(@A.map((o: any) => ({ v: o.v }))))"#,
+    /* 111 */ r#"((a: any[]) => Array.from({ length: 3, 0: a[0], get 1() { a.length = 0; [{}, {}]; return { v: @N }; }, 2: a[1] } as any, (o: any) => o ?? { v: -1 }))(@A.concat([{ v: 1 }]))"#,
+    /* 112 */ r#"((a: any[]) => [Object.assign({ v: 0 }, { get x(): any { a.length = 0; return [{}, {}]; } }, { y: a[0] }, ...a.map((o: any, i: number) => ({ ["z" + i]: { w: o.v } })))])(@A.concat([{ v: 1 }]))"#,
 ];
 
 pub fn render(root: &Node) -> String {
